@@ -131,6 +131,7 @@ func RunC02(c *Ctx) {
 		}
 		gen.SystematicEdits(cc.Text, func(m string) { CheckC02(c, cc.Entries()[0], m) })
 	}
+	operandMatrix(c, func(entry, input string) { CheckC02(c, entry, input) })
 	for i, sf := range qualifiedSpecialForms() {
 		if c.Mine(i) {
 			CheckC02(c, "expr", sf)
@@ -326,6 +327,53 @@ func RunC08(c *Ctx) {
 			}
 		}
 	}
+	// lists have no documented size limit: a sentence that is accepted with one of its lists widened by 13 elements is
+	// accepted with the same list widened by 900 (the list sits wherever the grammar put it: inside double
+	// parentheses, type arguments, hints ...)
+	{
+		type host struct{ entry, txt string }
+		var hosts []host
+		set, _, _ := gen.SystematicSet()
+		rr := gen.NewRand(1, 4100)
+		for _, s := range set {
+			txt := gen.Render(rr, s, gen.RenderOpts{})
+			if len(txt) <= 2000 && gen.RelexGuard(txt, s) {
+				hosts = append(hosts, host{s.Entry, txt})
+			}
+		}
+		for _, cc := range c.Corpus() {
+			if !cc.Bad && len(cc.Text) <= 2000 {
+				hosts = append(hosts, host{cc.Entries()[0], cc.Text})
+			}
+		}
+		for _, h := range c08WideHosts {
+			hosts = append(hosts, host{h[0], h[1]})
+		}
+		for i, h := range hosts {
+			if !c.Mine(i) {
+				continue
+			}
+			var small, wide []string
+			gen.WidenLists(h.txt, 13, func(m string) { small = append(small, m) })
+			gen.WidenLists(h.txt, 900, func(m string) { wide = append(wide, m) })
+			for k := range small {
+				if k >= len(wide) {
+					break
+				}
+				c.Journal(h.entry, wide[k])
+				ps := Parse(h.entry, small[k])
+				if ps.Panic != nil || ps.Err != nil {
+					continue
+				}
+				pw := Parse(h.entry, wide[k])
+				c.Eval()
+				c.Count("widened_sentences", 1)
+				if pw.Panic == nil && pw.Err != nil {
+					c.Violate("c08:rejected-when-wide:"+h.entry, h.entry, wide[k], fmt.Sprintf("accepted with the list widened by 13 elements (%q), rejected with the same list widened by 900: %v", small[k], firstLine(pw.Err.Error())))
+				}
+			}
+		}
+	}
 	// identifiers that spell a pseudo-keyword of the same sentence (always back-quoted) are ordinary identifiers
 	pkwNamedWorkload(c, func(entry, input string) { CheckC08(c, entry, input) })
 	// keyword-like identifiers in lower / upper case are covered by render policies 0 (upper) and 1 (lower)
@@ -472,4 +520,61 @@ func RunC16(c *Ctx) {
 		}
 		c.Distinct(entry + "\x00" + cc.Text)
 	})
+	// whatever else the parser accepts: near misses of the systematic set and the corpus (token edits, moves, duplicated
+	// runs, inserted phrases, widened lists), the scope probes, qualified special forms, the wide hosts. A form that is
+	// accepted only in one spelling shows here the moment it becomes accepted.
+	seed := func(entry, input string) {
+		if len(input) > 3000 {
+			return
+		}
+		p := Parse(entry, input)
+		if p.Panic != nil || p.Err != nil {
+			return
+		}
+		c.Count("accepted_near_misses_respelled", 1)
+		for j := 0; j < 2; j++ {
+			txt := gen.Respell(r, input, gen.RenderOpts{Trivia: 1 + j, Case: 1 + r.IntN(3)})
+			if txt == "" {
+				c.Count("respell_guard_rejected", 1)
+				continue
+			}
+			CheckC16Pair(c, entry, input, txt)
+		}
+	}
+	nearMissWorkload(c, seed)
+	if c.Shard == 0 {
+		for _, pr := range ScopeProbes {
+			seed(pr.Entry, pr.Text)
+		}
+		for _, f := range qualifiedSpecialForms() {
+			seed("expr", f)
+		}
+		for _, h := range c08WideHosts {
+			seed(h[0], h[1])
+		}
+		for _, sh := range c11Shapes {
+			seed("statement", sh[1])
+		}
+	}
+}
+
+// c08WideHosts: lists inside parenthesised query operands and other look-ahead-heavy places (grammar G keeps out of
+// double parentheses in sub-query position, see SCOPE.md; these are forms the parser accepts today).
+var c08WideHosts = [][2]string{
+	{"query", "SELECT ((SELECT a FROM t WHERE b IN (1, 2)) UNION ALL (SELECT 1))"},
+	{"query", "SELECT * FROM ((SELECT a FROM t WHERE b IN (1, 2)) UNION ALL (SELECT 1))"},
+	{"query", "SELECT a IN ((SELECT f(1, 2) FROM t) UNION ALL (SELECT 1)) FROM t"},
+	{"query", "((SELECT [1, 2] FROM t) LIMIT 1)"},
+	{"query", "((SELECT (1, 2) FROM t) ORDER BY 1) UNION ALL (SELECT (3, 4))"},
+	{"expr", "((SELECT STRUCT(1, 2)) UNION ALL (SELECT STRUCT(3, 4)))"},
+	{"expr", "ARRAY((SELECT a FROM t WHERE a IN (1, 2)) UNION ALL (SELECT b FROM u))"},
+	{"expr", "EXISTS((SELECT a FROM t WHERE a IN (1, 2)) INTERSECT DISTINCT (SELECT 1))"},
+	{"expr", "(((SELECT f(1, 2))))"},
+	{"expr", "((a IN (1, 2)))"},
+	{"expr", "(((1, 2)), 3)"},
+	{"statement", "INSERT INTO t (a) ((SELECT f(1, 2)) UNION ALL (SELECT 1))"},
+	{"statement", "CREATE VIEW v SQL SECURITY INVOKER AS ((SELECT a FROM t WHERE a IN (1, 2)) UNION ALL (SELECT 1))"},
+	{"query", "WITH c AS ((SELECT a FROM t WHERE a IN (1, 2)) UNION ALL (SELECT 1)) SELECT * FROM c"},
+	{"query", "SELECT * FROM t JOIN ((SELECT a FROM u WHERE a IN (1, 2)) UNION ALL (SELECT 1)) AS s USING (a)"},
+	{"type", "ARRAY<STRUCT<a STRUCT<b INT64, c STRING>>>"},
 }
